@@ -705,7 +705,8 @@ def d3(cx: Cx, ob: Ob) -> None:
 def d4(cx: Cx, ob: Ob) -> None:
     for fn in cx.model.functions.values():
         fs = cx.summary(fn, ob.id)
-        for c, ev, _ in fs.calls():
+        rets = [t_ for t_, _c in fs.returns()]
+        for c, ev, ectx in fs.calls():
             f = c[1]
             is_ctor = (op(f) == "cls" and f[1] == CONV) or (op(f) == "param" and f[1] == "cls" and fn.cls is not None and fn.cls.qualname == CONV and fn.is_classmethod)
             if not is_ctor:
@@ -714,6 +715,22 @@ def d4(cx: Cx, ob: Ob) -> None:
             kw = dict(c[3])
             if "strict" in kw and not (op(kw["strict"]) == "param"):
                 if not is_const(kw["strict"], True):
+                    # (1) a lenient WORKING COPY that never leaves the function: what is handed out is built strictly
+                    escapes = any(r_ == c or (op(r_) == "ifexp" and c in (r_[2], r_[3])) for r_ in rets) or any(e2.kind == "store" and e2.b == c and op(e2.a) == "attr" for e2, _c2 in fs.walk())
+                    strict_results = [r_ for r_ in rets if op(r_) == "call" and ((op(r_[1]) == "cls" and r_[1][1] == CONV)) and not any(k_ == "strict" for k_, _v in r_[3])]
+                    if not escapes and strict_results and len(strict_results) == len([r_ for r_ in rets if not is_const(r_, None)]):
+                        ob.site(f"{where(fn, ev.line)} {fn.qualname}", "lenient working copy; every result is built by the strict constructor")
+                        continue
+                    # (2) the fallback for an input that was itself built leniently: reached only after the strict
+                    # constructor has refused BOTH the result and the input's own records
+                    dup = [g for g in ectx.guards if g.kind == "except" and any(str(n_).rsplit(".", 1)[-1] in ("DuplicateValueError", "DuplicateURIPrefixes", "DuplicatePrefixes", "ValueError") for n_ in (g.a if isinstance(g.a, (tuple, list)) else (g.a,)))]
+                    probes_input = any(
+                        isinstance(t_, tuple) and any(op(x_) == "call" and op(x_[1]) == "cls" and x_[1][1] == CONV and x_[2][:1] and op(x_[2][0]) == "attr" and op(x_[2][0][1]) == "param" and x_[2][0][2] == "records" and not x_[3] for x_ in subterms(t_))
+                        for e2, c2 in fs.walk() if any(g_.kind == "except" for g_ in c2.guards) for t_ in (e2.a, e2.b)
+                    )
+                    if len(dup) >= 2 and probes_input:
+                        ob.site(f"{where(fn, ev.line)} {fn.qualname}", "lenient result only after the strict constructor refused the input converter's own records as well")
+                        continue
                     ob.violate(fn.qualname, where(fn, ev.line), f"{fn.name} constructs a Converter with strict={show(kw['strict'])}: duplicate prefixes are accepted silently", detail="strict-off")
             if len(c[2]) > 2:
                 ob.violate(fn.qualname, where(fn, ev.line), "positional arguments beyond records passed to Converter(...)", detail="positional")
